@@ -7,60 +7,85 @@ import Arca.Model.PluginState
 namespace Arca.Proofs.PluginState
 open Arca.Model.PluginState
 
-/-- what `State()`, `CurrentStage()` and the deploy channel look like at each program point of `run()` -/
+/-- what the raw state, the stage, the input flags / channels and the loop-side record look like at each program point
+    of `run()` -/
 def inv (s : St) : Bool :=
+  let dEq := s.deployOcc == s.deployAvail     -- deploy input not consumed yet
+  let eEq := s.enabledOcc == s.enabledAvail   -- enabling input not consumed yet
+  let rEq := s.runOcc == s.runAvail           -- run input not consumed yet
+  let rep (x : Stage) := s.reportedStage == some x
+  let runFacts := if s.early then s.runAvail && !s.runOcc else rEq
   -- an input flag that is not set means an empty channel
   (s.deployAvail || !s.deployOcc) && (s.enabledAvail || !s.enabledOcc) && (s.runAvail || !s.runOcc) &&
   (match s.pc with
-   | .dLock => s.state == .starting && s.stage == .deploy && s.deployOcc == s.deployAvail
-   | .dCb => s.state == .running && s.stage == .deploy && s.deployOcc == s.deployAvail
-   | .dTry => s.state == .running && s.stage == .deploy && s.deployOcc == s.deployAvail
-   | .dSetWaiting => s.state == .running && s.stage == .deploy && s.deployOcc == s.deployAvail
-   | .dWait => (s.state == .waiting || (s.state == .running && s.deployAvail)) && s.stage == .deploy &&
-       s.deployOcc == s.deployAvail
-   | .dGotEarly => s.state == .running && s.stage == .deploy && s.deployAvail
-   | .dGotLate => (s.state == .waiting || s.state == .running) && s.stage == .deploy && s.deployAvail
-   | .dDeploying => s.state == .running && s.stage == .deploy
-   | .spCheck => s.state == .running && s.stage == .deploy
-   | .eLock => s.state == .running && s.stage == .deploy
-   | .eCb => s.state == .waiting && s.stage == .enabling
-   | .eWait => s.state == .waiting && s.stage == .enabling
-   | .eGotTrue => s.state == .waiting && s.stage == .enabling
-   | .sTry => s.state == .waiting && s.stage == .enabling
-   | .transLock .starting st => s.state == .waiting && s.stage == .enabling && st == (if s.early then .running else .waiting)
-   | .transLock .disabled st => s.state == .waiting && s.stage == .enabling && st == .running
-   | .transLock .running st => s.state == .running && s.stage == .starting && st == .running
-   | .transLock .outputs st => s.state == .running && s.stage == .running && st == .running
-   | .transLock .crashed st => s.state == .running && s.stage == .running && st == .running
-   | .transLock .deployFailed st => s.state == .running && s.stage == .deploy && st == .running
-   | .transLock .closed st => s.state == .running && s.stage == .deploy && st == .running
+   | .dLock => s.state == .starting && s.stage == .deploy && dEq && eEq && rEq && s.reportedStage == none && !s.completed
+   | .dCb => s.state == .running && s.stage == .deploy && dEq && eEq && rEq && s.reportedStage == none && !s.completed
+   | .dCbRet => s.state == .running && s.stage == .deploy && dEq && eEq && rEq && rep .deploy && !s.completed
+   | .dTry => s.state == .running && s.stage == .deploy && dEq && eEq && rEq && rep .deploy && !s.completed
+   | .dSetWaiting => s.state == .running && s.stage == .deploy && dEq && eEq && rEq && rep .deploy && !s.completed
+   | .dWait => (s.state == .waiting || (s.state == .running && s.deployAvail)) && s.stage == .deploy && dEq && eEq && rEq &&
+       rep .deploy && !s.completed
+   | .dGotEarly => s.state == .running && s.stage == .deploy && s.deployAvail && eEq && rEq && rep .deploy && !s.completed
+   | .dGotLate => (s.state == .waiting || s.state == .running) && s.stage == .deploy && s.deployAvail && eEq && rEq &&
+       rep .deploy && !s.completed
+   | .dDeploying => s.state == .running && s.stage == .deploy && eEq && rEq && rep .deploy && !s.completed
+   | .spCheck => s.state == .running && s.stage == .deploy && eEq && rEq && rep .deploy && !s.completed
+   | .eLock => s.state == .running && s.stage == .deploy && eEq && rEq && rep .deploy && !s.completed
+   | .eCb => s.state == .waiting && s.stage == .enabling && eEq && rEq && rep .deploy && !s.completed
+   | .eCbRet => s.state == .waiting && s.stage == .enabling && eEq && rEq && rep .enabling && !s.completed
+   | .eWait => s.state == .waiting && s.stage == .enabling && eEq && rEq && rep .enabling && !s.completed
+   | .eGotTrue => s.state == .waiting && s.stage == .enabling && s.enabledAvail && rEq && rep .enabling && !s.completed
+   | .sTry => s.state == .waiting && s.stage == .enabling && s.enabledAvail && rEq && rep .enabling && !s.completed
+   | .transLock .starting st => s.state == .waiting && s.stage == .enabling && s.enabledAvail && runFacts &&
+       st == (if s.early then .running else .waiting) && rep .enabling && !s.completed
+   | .transLock .disabled st => s.state == .waiting && s.stage == .enabling && s.enabledAvail && st == .running &&
+       rep .enabling && !s.completed
+   | .transLock .running st => s.state == .running && s.stage == .starting && st == .running && rep .starting && !s.completed
+   | .transLock .outputs st => s.state == .running && s.stage == .running && st == .running && rep .running && !s.completed
+   | .transLock .crashed st => s.state == .running && s.stage == .running && st == .running && rep .running && !s.completed
+   | .transLock .deployFailed st => s.state == .running && s.stage == .deploy && st == .running && rep .deploy && !s.completed
+   | .transLock .closed st => s.state == .running && s.stage == .deploy && st == .running && rep .deploy && !s.completed
    | .transLock .deploy _ => false
    | .transLock .enabling _ => false
-   | .transCb .starting => s.stage == .starting && s.state == (if s.early then .running else .waiting)
+   | .transCb .starting => s.stage == .starting && s.state == (if s.early then .running else .waiting) && runFacts &&
+       rep .enabling && !s.completed
+   | .transCb .disabled => s.state == .running && s.stage == .disabled && rep .enabling && !s.completed
+   | .transCb .running => s.state == .running && s.stage == .running && rep .starting && !s.completed
+   | .transCb .outputs => s.state == .running && s.stage == .outputs && rep .running && !s.completed
+   | .transCb .crashed => s.state == .running && s.stage == .crashed && rep .running && !s.completed
+   | .transCb .deployFailed => s.state == .running && s.stage == .deployFailed && rep .deploy && !s.completed
+   | .transCb .closed => s.state == .running && s.stage == .closed && rep .deploy && !s.completed
    | .transCb .deploy => false
    | .transCb .enabling => false
-   | .transCb tgt => s.state == .running && s.stage == tgt
-   | .sCheck => s.state == .waiting && s.stage == .starting && !s.early
-   | .sWait => s.state == .waiting && s.stage == .starting && !s.early
-   | .sGotLate => s.state == .waiting && s.stage == .starting && !s.early
-   | .sSchema => s.state == .running && s.stage == .starting
-   | .rWait => s.state == .running && s.stage == .running
+   | .transCbRet .starting => s.stage == .starting && s.state == (if s.early then .running else .waiting) && runFacts &&
+       rep .starting && !s.completed
+   | .transCbRet .deploy => false
+   | .transCbRet .enabling => false
+   | .transCbRet tgt => s.state == .running && s.stage == tgt && rep tgt && !s.completed
+   | .sCheck => s.state == .waiting && s.stage == .starting && !s.early && rEq && rep .starting && !s.completed
+   | .sWait => s.state == .waiting && s.stage == .starting && !s.early && rEq && rep .starting && !s.completed
+   | .sGotLate => s.state == .waiting && s.stage == .starting && !s.early && s.runAvail && rep .starting && !s.completed
+   | .sSchema => s.state == .running && s.stage == .starting && rep .starting && !s.completed
+   | .rWait => s.state == .running && s.stage == .running && rep .running && !s.completed
    | .failedLock .closed =>
        (s.state == .waiting || (s.state == .running && s.stage == .deploy && s.deployAvail)) &&
-       (s.stage == .deploy || s.stage == .enabling || s.stage == .starting)
-   | .failedLock .crashed => s.state == .running && s.stage == .starting
+       (s.stage == .deploy || s.stage == .enabling || s.stage == .starting) &&
+       s.ctxDone && s.reportedStage == some s.stage && !s.completed
+   | .failedLock .crashed => s.state == .running && s.stage == .starting && !s.completed
    | .failedLock _ => false
-   | .failedCb tgt => s.state == .running && s.stage == tgt && (tgt == .closed || tgt == .crashed)
-   | .complLock tgt => s.state == .running && s.stage == tgt
-   | .complCb tgt => s.state == .finished && s.stage == tgt
-   | .tail => s.state == .finished
-   | .done => s.state == .finished)
+   | .failedCb tgt => s.state == .running && s.stage == tgt && (tgt == .closed || tgt == .crashed) && !s.completed
+   | .complLock tgt => s.state == .running && s.stage == tgt && !s.completed
+   | .complCb tgt => s.state == .finished && s.stage == tgt && !s.completed
+   | .complCbRet tgt => s.state == .finished && s.stage == tgt && s.completed
+   | .tailFail => s.state == .finished && s.completed
+   | .tailClose => s.state == .finished && s.completed
+   | .done => s.state == .finished && s.completed)
 
 theorem inv_init : inv init = true := by decide
 
 /-- closure under one action: fix the action and the program point, compute, discharge -/
-macro "close_tac" hi:ident hs:ident pc:ident stv:ident : tactic => `(tactic| (
-  rcases $pc:ident with _|_|_|_|_|_|_|_|_|_|_|_|_|_|_|_|_|_|_|⟨tgt,st⟩|⟨tgt⟩|⟨tgt⟩|⟨tgt⟩|⟨tgt⟩|⟨tgt⟩|_|_
+macro "close_tac" hi:ident hs:ident pc:ident stv:ident ev:ident : tactic => `(tactic| (
+  rcases $pc:ident with _|_|_|_|_|_|_|_|_|_|_|_|_|_|_|_|_|_|_|_|_|⟨tgt,st⟩|⟨tgt⟩|⟨tgt⟩|⟨tgt⟩|⟨tgt⟩|⟨tgt⟩|⟨tgt⟩|⟨tgt⟩|_|_|_
   all_goals (try cases tgt)
   all_goals (try cases st)
   all_goals (simp [step, afterTrans] at $hs:ident)
@@ -68,59 +93,68 @@ macro "close_tac" hi:ident hs:ident pc:ident stv:ident : tactic => `(tactic| (
   all_goals (try (obtain ⟨_, $hs:ident⟩ := $hs:ident))
   all_goals (try subst $hs:ident)
   all_goals (simp_all [inv])
-  all_goals (try (cases $stv:ident <;> simp_all))))
+  all_goals (try (cases $stv:ident <;> simp_all))
+  all_goals (try (cases $ev:ident <;> simp_all))))
 
 theorem inv_provideDeploy (s s' : St) (hi : inv s = true) (hs : step s (.provideDeploy) = some s') : inv s' = true := by
-  rcases s with ⟨pc, state, stage, dA, eA, rA, dO, eO, eV, rO, early, ctx⟩
-  close_tac hi hs pc state
+  rcases s with ⟨pc, state, stage, dA, eA, rA, dO, eO, eV, rO, early, ctx, rep, compl⟩
+  close_tac hi hs pc state early
 
 theorem inv_provideEnabling (s s' : St) (b : Bool) (hi : inv s = true) (hs : step s (.provideEnabling b) = some s') : inv s' = true := by
-  rcases s with ⟨pc, state, stage, dA, eA, rA, dO, eO, eV, rO, early, ctx⟩
-  close_tac hi hs pc state
+  rcases s with ⟨pc, state, stage, dA, eA, rA, dO, eO, eV, rO, early, ctx, rep, compl⟩
+  close_tac hi hs pc state early
 
 theorem inv_provideStarting (s s' : St) (hi : inv s = true) (hs : step s (.provideStarting) = some s') : inv s' = true := by
-  rcases s with ⟨pc, state, stage, dA, eA, rA, dO, eO, eV, rO, early, ctx⟩
-  close_tac hi hs pc state
+  rcases s with ⟨pc, state, stage, dA, eA, rA, dO, eO, eV, rO, early, ctx, rep, compl⟩
+  close_tac hi hs pc state early
 
 theorem inv_cancel (s s' : St) (hi : inv s = true) (hs : step s (.cancel) = some s') : inv s' = true := by
-  rcases s with ⟨pc, state, stage, dA, eA, rA, dO, eO, eV, rO, early, ctx⟩
-  close_tac hi hs pc state
+  rcases s with ⟨pc, state, stage, dA, eA, rA, dO, eO, eV, rO, early, ctx, rep, compl⟩
+  close_tac hi hs pc state early
 
 theorem inv_internal (s s' : St) (hi : inv s = true) (hs : step s (.internal) = some s') : inv s' = true := by
-  rcases s with ⟨pc, state, stage, dA, eA, rA, dO, eO, eV, rO, early, ctx⟩
-  close_tac hi hs pc state
+  rcases s with ⟨pc, state, stage, dA, eA, rA, dO, eO, eV, rO, early, ctx, rep, compl⟩
+  close_tac hi hs pc state early
+
+theorem inv_deliver (s s' : St) (hi : inv s = true) (hs : step s (.deliver) = some s') : inv s' = true := by
+  rcases s with ⟨pc, state, stage, dA, eA, rA, dO, eO, eV, rO, early, ctx, rep, compl⟩
+  close_tac hi hs pc state early
+
+theorem inv_deliverFailure (s s' : St) (hi : inv s = true) (hs : step s (.deliverFailure) = some s') : inv s' = true := by
+  rcases s with ⟨pc, state, stage, dA, eA, rA, dO, eO, eV, rO, early, ctx, rep, compl⟩
+  close_tac hi hs pc state early
 
 theorem inv_recv (s s' : St) (hi : inv s = true) (hs : step s (.recv) = some s') : inv s' = true := by
-  rcases s with ⟨pc, state, stage, dA, eA, rA, dO, eO, eV, rO, early, ctx⟩
-  close_tac hi hs pc state
+  rcases s with ⟨pc, state, stage, dA, eA, rA, dO, eO, eV, rO, early, ctx, rep, compl⟩
+  close_tac hi hs pc state early
 
 theorem inv_ctx (s s' : St) (hi : inv s = true) (hs : step s (.ctx) = some s') : inv s' = true := by
-  rcases s with ⟨pc, state, stage, dA, eA, rA, dO, eO, eV, rO, early, ctx⟩
-  close_tac hi hs pc state
+  rcases s with ⟨pc, state, stage, dA, eA, rA, dO, eO, eV, rO, early, ctx, rep, compl⟩
+  close_tac hi hs pc state early
 
 theorem inv_deployOk (s s' : St) (hi : inv s = true) (hs : step s (.deployOk) = some s') : inv s' = true := by
-  rcases s with ⟨pc, state, stage, dA, eA, rA, dO, eO, eV, rO, early, ctx⟩
-  close_tac hi hs pc state
+  rcases s with ⟨pc, state, stage, dA, eA, rA, dO, eO, eV, rO, early, ctx, rep, compl⟩
+  close_tac hi hs pc state early
 
 theorem inv_deployFail (s s' : St) (hi : inv s = true) (hs : step s (.deployFail) = some s') : inv s' = true := by
-  rcases s with ⟨pc, state, stage, dA, eA, rA, dO, eO, eV, rO, early, ctx⟩
-  close_tac hi hs pc state
+  rcases s with ⟨pc, state, stage, dA, eA, rA, dO, eO, eV, rO, early, ctx, rep, compl⟩
+  close_tac hi hs pc state early
 
 theorem inv_startOk (s s' : St) (hi : inv s = true) (hs : step s (.startOk) = some s') : inv s' = true := by
-  rcases s with ⟨pc, state, stage, dA, eA, rA, dO, eO, eV, rO, early, ctx⟩
-  close_tac hi hs pc state
+  rcases s with ⟨pc, state, stage, dA, eA, rA, dO, eO, eV, rO, early, ctx, rep, compl⟩
+  close_tac hi hs pc state early
 
 theorem inv_startFail (s s' : St) (hi : inv s = true) (hs : step s (.startFail) = some s') : inv s' = true := by
-  rcases s with ⟨pc, state, stage, dA, eA, rA, dO, eO, eV, rO, early, ctx⟩
-  close_tac hi hs pc state
+  rcases s with ⟨pc, state, stage, dA, eA, rA, dO, eO, eV, rO, early, ctx, rep, compl⟩
+  close_tac hi hs pc state early
 
 theorem inv_resultOk (s s' : St) (hi : inv s = true) (hs : step s (.resultOk) = some s') : inv s' = true := by
-  rcases s with ⟨pc, state, stage, dA, eA, rA, dO, eO, eV, rO, early, ctx⟩
-  close_tac hi hs pc state
+  rcases s with ⟨pc, state, stage, dA, eA, rA, dO, eO, eV, rO, early, ctx, rep, compl⟩
+  close_tac hi hs pc state early
 
 theorem inv_resultErr (s s' : St) (hi : inv s = true) (hs : step s (.resultErr) = some s') : inv s' = true := by
-  rcases s with ⟨pc, state, stage, dA, eA, rA, dO, eO, eV, rO, early, ctx⟩
-  close_tac hi hs pc state
+  rcases s with ⟨pc, state, stage, dA, eA, rA, dO, eO, eV, rO, early, ctx, rep, compl⟩
+  close_tac hi hs pc state early
 
 theorem inv_step (s s' : St) (a : Act) (hi : inv s = true) (hs : step s a = some s') : inv s' = true := by
   cases a with
@@ -129,6 +163,8 @@ theorem inv_step (s s' : St) (a : Act) (hi : inv s = true) (hs : step s a = some
   | provideStarting => exact inv_provideStarting s s' hi hs
   | cancel => exact inv_cancel s s' hi hs
   | internal => exact inv_internal s s' hi hs
+  | deliver => exact inv_deliver s s' hi hs
+  | deliverFailure => exact inv_deliverFailure s s' hi hs
   | recv => exact inv_recv s s' hi hs
   | ctx => exact inv_ctx s s' hi hs
   | deployOk => exact inv_deployOk s s' hi hs
@@ -142,46 +178,6 @@ theorem reachable_inv (s : St) (hr : Reachable s) : inv s = true := by
   induction hr with
   | init => exact inv_init
   | step a _ hs ih => exact inv_step _ _ a ih hs
-
-/-! ### consequences -/
-
-/-- `waiting_for_input` or `finished` is observed either in a quiescent state or in one of the listed windows -/
-theorem classified (s : St) (hi : inv s = true) (hw : s.state = .waiting ∨ s.state = .finished) :
-    Quiescent s = true ∨ InWindow s = true := by
-  rcases s with ⟨pc, state, stage, dA, eA, rA, dO, eO, eV, rO, early, ctx⟩
-  rcases pc with _|_|_|_|_|_|_|_|_|_|_|_|_|_|_|_|_|_|_|⟨tgt,st⟩|⟨tgt⟩|⟨tgt⟩|⟨tgt⟩|⟨tgt⟩|⟨tgt⟩|_|_
-  all_goals (try cases tgt)
-  all_goals (try cases st)
-  all_goals (simp [inv] at hi)
-  all_goals (simp [Quiescent, progressActs, step, afterTrans, InWindow, inDeployRace, inEnableWindow, inStartWindow,
-    inCompletionWindow, inClosingWindow])
-  all_goals (try (rcases hw with hw | hw <;> simp_all))
-  all_goals (try (cases dO <;> cases ctx <;> simp_all))
-  all_goals (try (cases eO <;> cases ctx <;> simp_all))
-  all_goals (try (cases rO <;> cases ctx <;> simp_all))
-
-/-- the shape of the quiescent states -/
-theorem quiescent_shape (s : St) (hi : inv s = true) (hq : Quiescent s = true) :
-    (s.pc = .dWait ∧ s.deployOcc = false ∧ s.ctxDone = false) ∨ (s.pc = .eWait ∧ s.enabledOcc = false ∧ s.ctxDone = false) ∨
-    (s.pc = .sWait ∧ s.runOcc = false ∧ s.ctxDone = false) ∨ s.pc = .done := by
-  rcases s with ⟨pc, state, stage, dA, eA, rA, dO, eO, eV, rO, early, ctx⟩
-  rcases pc with _|_|_|_|_|_|_|_|_|_|_|_|_|_|_|_|_|_|_|⟨tgt,st⟩|⟨tgt⟩|⟨tgt⟩|⟨tgt⟩|⟨tgt⟩|⟨tgt⟩|_|_
-  all_goals (try cases tgt)
-  all_goals (simp [Quiescent, progressActs, step, afterTrans] at hq)
-  all_goals (try (split at hq <;> simp at hq))
-  all_goals (try simp_all)
-  all_goals (simp [inv] at hi)
-
-/-- stage `deploy`, state `waiting_for_input`, input provided: only in the deploy race or while being closed -/
-theorem deploy_waiting_provided (s : St) (hi : inv s = true) (hst : s.stage = .deploy) (hw : s.state = .waiting)
-    (ha : s.deployAvail = true) : inDeployRace s = true ∨ s.pc = .failedLock .closed := by
-  rcases s with ⟨pc, state, stage, dA, eA, rA, dO, eO, eV, rO, early, ctx⟩
-  rcases pc with _|_|_|_|_|_|_|_|_|_|_|_|_|_|_|_|_|_|_|⟨tgt,st⟩|⟨tgt⟩|⟨tgt⟩|⟨tgt⟩|⟨tgt⟩|⟨tgt⟩|_|_
-  all_goals (try cases tgt)
-  all_goals (try cases st)
-  all_goals (simp [inv] at hi)
-  all_goals (simp [inDeployRace])
-  all_goals (simp_all)
 
 /-! ### the poll model -/
 
@@ -224,5 +220,280 @@ theorem busy_poll_stops (r : Nat) : ∀ (polls : List (List RState)) (i : Nat) (
       | succ j =>
         simp at hp
         simp [detectorFires, ih rest j p (by omega) hp hidle]
+
+/-! ### consequences -/
+
+/-- unfold everything the detector-side definitions are made of -/
+macro "unfold_defs" : tactic => `(tactic| simp [Quiescent, Settled, progressActs, step, afterTrans, InWindow, inDeployRace,
+  inEnableWindow, inStartWindow, inCompletionWindow, inClosingWindow, inFailureTail, countsAs, reportedState,
+  currentStageInputAvailable, Refined, owesCheck, checkingReportPending] at *)
+
+/-- the RAW `waiting_for_input` or `finished` is observed either in a quiescent state or in one of the listed windows -/
+theorem raw_classified (s : St) (hi : inv s = true) (hw : s.state = .waiting ∨ s.state = .finished) :
+    Quiescent s = true ∨ InWindow s = true := by
+  rcases s with ⟨pc, state, stage, dA, eA, rA, dO, eO, eV, rO, early, ctx, rep, compl⟩
+  rcases pc with _|_|_|_|_|_|_|_|_|_|_|_|_|_|_|_|_|_|_|_|_|⟨tgt,st⟩|⟨tgt⟩|⟨tgt⟩|⟨tgt⟩|⟨tgt⟩|⟨tgt⟩|⟨tgt⟩|⟨tgt⟩|_|_|_
+  all_goals (try cases tgt)
+  all_goals (try cases st)
+  all_goals (simp [inv] at hi)
+  all_goals (simp [Quiescent, progressActs, step, afterTrans, InWindow, inDeployRace, inEnableWindow, inStartWindow,
+    inCompletionWindow, inClosingWindow])
+  all_goals (try (rcases hw with hw | hw <;> simp_all))
+  all_goals (try (cases dO <;> cases ctx <;> simp_all))
+  all_goals (try (cases eO <;> cases ctx <;> simp_all))
+  all_goals (try (cases rO <;> cases ctx <;> simp_all))
+
+/-- the shape of the quiescent states -/
+theorem quiescent_shape (s : St) (hi : inv s = true) (hq : Quiescent s = true) :
+    (s.pc = .dWait ∧ s.deployOcc = false ∧ s.ctxDone = false) ∨ (s.pc = .eWait ∧ s.enabledOcc = false ∧ s.ctxDone = false) ∨
+    (s.pc = .sWait ∧ s.runOcc = false ∧ s.ctxDone = false) ∨ s.pc = .done := by
+  rcases s with ⟨pc, state, stage, dA, eA, rA, dO, eO, eV, rO, early, ctx, rep, compl⟩
+  rcases pc with _|_|_|_|_|_|_|_|_|_|_|_|_|_|_|_|_|_|_|_|_|⟨tgt,st⟩|⟨tgt⟩|⟨tgt⟩|⟨tgt⟩|⟨tgt⟩|⟨tgt⟩|⟨tgt⟩|⟨tgt⟩|_|_|_
+  all_goals (try cases tgt)
+  all_goals (try cases st)
+  all_goals (simp [Quiescent, progressActs, step, afterTrans] at hq)
+  all_goals (try (split at hq <;> simp at hq))
+  all_goals (try simp_all)
+  all_goals (simp [inv] at hi)
+
+/-- stage `deploy`, raw state `waiting_for_input`, input provided: only in the deploy race or while being closed -/
+theorem deploy_waiting_provided (s : St) (hi : inv s = true) (hst : s.stage = .deploy) (hw : s.state = .waiting)
+    (ha : s.deployAvail = true) : inDeployRace s = true ∨ s.pc = .failedLock .closed := by
+  rcases s with ⟨pc, state, stage, dA, eA, rA, dO, eO, eV, rO, early, ctx, rep, compl⟩
+  rcases pc with _|_|_|_|_|_|_|_|_|_|_|_|_|_|_|_|_|_|_|_|_|⟨tgt,st⟩|⟨tgt⟩|⟨tgt⟩|⟨tgt⟩|⟨tgt⟩|⟨tgt⟩|⟨tgt⟩|⟨tgt⟩|_|_|_
+  all_goals (try cases tgt)
+  all_goals (try cases st)
+  all_goals (simp [inv] at hi)
+  all_goals (simp [inDeployRace])
+  all_goals (simp_all)
+
+set_option maxRecDepth 4000
+
+/-- counted as `waiting`, context not cancelled: parked on an empty channel, or about to park silently -/
+theorem counts_waiting_settled (s : St) (hi : inv s = true) (hc : countsAs s = .waiting) (hctx : s.ctxDone = false) :
+    Settled s = true := by
+  rcases s with ⟨pc, state, stage, dA, eA, rA, dO, eO, eV, rO, early, ctx, rep, compl⟩
+  rcases pc with _|_|_|_|_|_|_|_|_|_|_|_|_|_|_|_|_|_|_|_|_|⟨tgt,st⟩|⟨tgt⟩|⟨tgt⟩|⟨tgt⟩|⟨tgt⟩|⟨tgt⟩|⟨tgt⟩|⟨tgt⟩|_|_|_
+  all_goals (try cases tgt)
+  all_goals (try cases st)
+  all_goals (simp [inv] at hi)
+  all_goals (try (simp_all [Quiescent, Settled, progressActs, step, afterTrans, countsAs, reportedState, currentStageInputAvailable, inFailureTail, Refined, owesCheck, checkingReportPending]; done))
+  all_goals (try (cases dA <;> simp_all [Quiescent, Settled, progressActs, step, afterTrans, countsAs, reportedState, currentStageInputAvailable, inFailureTail, Refined, owesCheck, checkingReportPending]; done))
+  all_goals (try (cases eA <;> simp_all [Quiescent, Settled, progressActs, step, afterTrans, countsAs, reportedState, currentStageInputAvailable, inFailureTail, Refined, owesCheck, checkingReportPending]; done))
+  all_goals (try (cases rA <;> simp_all [Quiescent, Settled, progressActs, step, afterTrans, countsAs, reportedState, currentStageInputAvailable, inFailureTail, Refined, owesCheck, checkingReportPending]; done))
+  all_goals (try (cases early <;> cases rA <;> simp_all [Quiescent, Settled, progressActs, step, afterTrans, countsAs, reportedState, currentStageInputAvailable, inFailureTail, Refined, owesCheck, checkingReportPending]; done))
+  all_goals (try (cases dO <;> cases ctx <;> simp_all [Quiescent, Settled, progressActs, step, afterTrans, countsAs, reportedState, currentStageInputAvailable, inFailureTail, Refined, owesCheck, checkingReportPending]; done))
+  all_goals (try (cases eO <;> cases ctx <;> simp_all [Quiescent, Settled, progressActs, step, afterTrans, countsAs, reportedState, currentStageInputAvailable, inFailureTail, Refined, owesCheck, checkingReportPending]; done))
+  all_goals (try (cases rO <;> cases ctx <;> cases early <;> simp_all [Quiescent, Settled, progressActs, step, afterTrans, countsAs, reportedState, currentStageInputAvailable, inFailureTail, Refined, owesCheck, checkingReportPending]; done))
+  all_goals (try (cases state <;> cases dA <;> cases dO <;> cases ctx <;> simp_all [Quiescent, Settled, progressActs, step, afterTrans, countsAs, reportedState, currentStageInputAvailable, inFailureTail, Refined, owesCheck, checkingReportPending]; done))
+  all_goals (try (cases state <;> cases stage <;> cases dA <;> cases eA <;> cases rA <;> simp_all [Quiescent, Settled, progressActs, step, afterTrans, countsAs, reportedState, currentStageInputAvailable, inFailureTail, Refined, owesCheck, checkingReportPending]; done))
+
+/-- counted as `finished`: nothing but the deferred closes is left, unless the failure notifications are still to come -/
+theorem counts_finished_settled (s : St) (hi : inv s = true) (hc : countsAs s = .finished) (hft : inFailureTail s = false) :
+    Settled s = true := by
+  rcases s with ⟨pc, state, stage, dA, eA, rA, dO, eO, eV, rO, early, ctx, rep, compl⟩
+  rcases pc with _|_|_|_|_|_|_|_|_|_|_|_|_|_|_|_|_|_|_|_|_|⟨tgt,st⟩|⟨tgt⟩|⟨tgt⟩|⟨tgt⟩|⟨tgt⟩|⟨tgt⟩|⟨tgt⟩|⟨tgt⟩|_|_|_
+  all_goals (try cases tgt)
+  all_goals (try cases st)
+  all_goals (simp [inv] at hi)
+  all_goals (try (simp_all [Quiescent, Settled, progressActs, step, afterTrans, countsAs, reportedState, currentStageInputAvailable, inFailureTail, Refined, owesCheck, checkingReportPending]; done))
+  all_goals (try (cases dA <;> simp_all [Quiescent, Settled, progressActs, step, afterTrans, countsAs, reportedState, currentStageInputAvailable, inFailureTail, Refined, owesCheck, checkingReportPending]; done))
+  all_goals (try (cases eA <;> simp_all [Quiescent, Settled, progressActs, step, afterTrans, countsAs, reportedState, currentStageInputAvailable, inFailureTail, Refined, owesCheck, checkingReportPending]; done))
+  all_goals (try (cases rA <;> simp_all [Quiescent, Settled, progressActs, step, afterTrans, countsAs, reportedState, currentStageInputAvailable, inFailureTail, Refined, owesCheck, checkingReportPending]; done))
+  all_goals (try (cases early <;> cases rA <;> simp_all [Quiescent, Settled, progressActs, step, afterTrans, countsAs, reportedState, currentStageInputAvailable, inFailureTail, Refined, owesCheck, checkingReportPending]; done))
+  all_goals (try (cases dO <;> cases ctx <;> simp_all [Quiescent, Settled, progressActs, step, afterTrans, countsAs, reportedState, currentStageInputAvailable, inFailureTail, Refined, owesCheck, checkingReportPending]; done))
+  all_goals (try (cases eO <;> cases ctx <;> simp_all [Quiescent, Settled, progressActs, step, afterTrans, countsAs, reportedState, currentStageInputAvailable, inFailureTail, Refined, owesCheck, checkingReportPending]; done))
+  all_goals (try (cases rO <;> cases ctx <;> cases early <;> simp_all [Quiescent, Settled, progressActs, step, afterTrans, countsAs, reportedState, currentStageInputAvailable, inFailureTail, Refined, owesCheck, checkingReportPending]; done))
+  all_goals (try (cases state <;> cases dA <;> cases dO <;> cases ctx <;> simp_all [Quiescent, Settled, progressActs, step, afterTrans, countsAs, reportedState, currentStageInputAvailable, inFailureTail, Refined, owesCheck, checkingReportPending]; done))
+  all_goals (try (cases state <;> cases stage <;> cases dA <;> cases eA <;> cases rA <;> simp_all [Quiescent, Settled, progressActs, step, afterTrans, countsAs, reportedState, currentStageInputAvailable, inFailureTail, Refined, owesCheck, checkingReportPending]; done))
+
+/-- wherever the refinement turns a raw `waiting_for_input` / `finished` into `running`, a checking report is owed -/
+theorem refined_owes (s : St) (hi : inv s = true) (hr : Refined s = true) : owesCheck s = true := by
+  rcases s with ⟨pc, state, stage, dA, eA, rA, dO, eO, eV, rO, early, ctx, rep, compl⟩
+  rcases pc with _|_|_|_|_|_|_|_|_|_|_|_|_|_|_|_|_|_|_|_|_|⟨tgt,st⟩|⟨tgt⟩|⟨tgt⟩|⟨tgt⟩|⟨tgt⟩|⟨tgt⟩|⟨tgt⟩|⟨tgt⟩|_|_|_
+  all_goals (try cases tgt)
+  all_goals (try cases st)
+  all_goals (simp [inv] at hi)
+  all_goals (try (simp_all [Quiescent, Settled, progressActs, step, afterTrans, countsAs, reportedState, currentStageInputAvailable, inFailureTail, Refined, owesCheck, checkingReportPending]; done))
+  all_goals (try (cases dA <;> simp_all [Quiescent, Settled, progressActs, step, afterTrans, countsAs, reportedState, currentStageInputAvailable, inFailureTail, Refined, owesCheck, checkingReportPending]; done))
+  all_goals (try (cases eA <;> simp_all [Quiescent, Settled, progressActs, step, afterTrans, countsAs, reportedState, currentStageInputAvailable, inFailureTail, Refined, owesCheck, checkingReportPending]; done))
+  all_goals (try (cases rA <;> simp_all [Quiescent, Settled, progressActs, step, afterTrans, countsAs, reportedState, currentStageInputAvailable, inFailureTail, Refined, owesCheck, checkingReportPending]; done))
+  all_goals (try (cases early <;> cases rA <;> simp_all [Quiescent, Settled, progressActs, step, afterTrans, countsAs, reportedState, currentStageInputAvailable, inFailureTail, Refined, owesCheck, checkingReportPending]; done))
+  all_goals (try (cases dO <;> cases ctx <;> simp_all [Quiescent, Settled, progressActs, step, afterTrans, countsAs, reportedState, currentStageInputAvailable, inFailureTail, Refined, owesCheck, checkingReportPending]; done))
+  all_goals (try (cases eO <;> cases ctx <;> simp_all [Quiescent, Settled, progressActs, step, afterTrans, countsAs, reportedState, currentStageInputAvailable, inFailureTail, Refined, owesCheck, checkingReportPending]; done))
+  all_goals (try (cases rO <;> cases ctx <;> cases early <;> simp_all [Quiescent, Settled, progressActs, step, afterTrans, countsAs, reportedState, currentStageInputAvailable, inFailureTail, Refined, owesCheck, checkingReportPending]; done))
+  all_goals (try (cases state <;> cases dA <;> cases dO <;> cases ctx <;> simp_all [Quiescent, Settled, progressActs, step, afterTrans, countsAs, reportedState, currentStageInputAvailable, inFailureTail, Refined, owesCheck, checkingReportPending]; done))
+  all_goals (try (cases state <;> cases stage <;> cases dA <;> cases eA <;> cases rA <;> simp_all [Quiescent, Settled, progressActs, step, afterTrans, countsAs, reportedState, currentStageInputAvailable, inFailureTail, Refined, owesCheck, checkingReportPending]; done))
+
+/-- a step that owes a check is never quiescent -/
+theorem owes_not_quiescent (s : St) (hi : inv s = true) (ho : owesCheck s = true) : Quiescent s = false := by
+  rcases s with ⟨pc, state, stage, dA, eA, rA, dO, eO, eV, rO, early, ctx, rep, compl⟩
+  rcases pc with _|_|_|_|_|_|_|_|_|_|_|_|_|_|_|_|_|_|_|_|_|⟨tgt,st⟩|⟨tgt⟩|⟨tgt⟩|⟨tgt⟩|⟨tgt⟩|⟨tgt⟩|⟨tgt⟩|⟨tgt⟩|_|_|_
+  all_goals (try cases tgt)
+  all_goals (try cases st)
+  all_goals (simp [inv] at hi)
+  all_goals (try (simp_all [Quiescent, Settled, progressActs, step, afterTrans, countsAs, reportedState, currentStageInputAvailable, inFailureTail, Refined, owesCheck, checkingReportPending]; done))
+  all_goals (try (cases dA <;> simp_all [Quiescent, Settled, progressActs, step, afterTrans, countsAs, reportedState, currentStageInputAvailable, inFailureTail, Refined, owesCheck, checkingReportPending]; done))
+  all_goals (try (cases eA <;> simp_all [Quiescent, Settled, progressActs, step, afterTrans, countsAs, reportedState, currentStageInputAvailable, inFailureTail, Refined, owesCheck, checkingReportPending]; done))
+  all_goals (try (cases rA <;> simp_all [Quiescent, Settled, progressActs, step, afterTrans, countsAs, reportedState, currentStageInputAvailable, inFailureTail, Refined, owesCheck, checkingReportPending]; done))
+  all_goals (try (cases early <;> cases rA <;> simp_all [Quiescent, Settled, progressActs, step, afterTrans, countsAs, reportedState, currentStageInputAvailable, inFailureTail, Refined, owesCheck, checkingReportPending]; done))
+  all_goals (try (cases dO <;> cases ctx <;> simp_all [Quiescent, Settled, progressActs, step, afterTrans, countsAs, reportedState, currentStageInputAvailable, inFailureTail, Refined, owesCheck, checkingReportPending]; done))
+  all_goals (try (cases eO <;> cases ctx <;> simp_all [Quiescent, Settled, progressActs, step, afterTrans, countsAs, reportedState, currentStageInputAvailable, inFailureTail, Refined, owesCheck, checkingReportPending]; done))
+  all_goals (try (cases rO <;> cases ctx <;> cases early <;> simp_all [Quiescent, Settled, progressActs, step, afterTrans, countsAs, reportedState, currentStageInputAvailable, inFailureTail, Refined, owesCheck, checkingReportPending]; done))
+  all_goals (try (cases state <;> cases dA <;> cases dO <;> cases ctx <;> simp_all [Quiescent, Settled, progressActs, step, afterTrans, countsAs, reportedState, currentStageInputAvailable, inFailureTail, Refined, owesCheck, checkingReportPending]; done))
+  all_goals (try (cases state <;> cases stage <;> cases dA <;> cases eA <;> cases rA <;> simp_all [Quiescent, Settled, progressActs, step, afterTrans, countsAs, reportedState, currentStageInputAvailable, inFailureTail, Refined, owesCheck, checkingReportPending]; done))
+
+/-- one action from a state that owes a check: either it is the processing of a checking report, or the check is still
+    owed afterwards -/
+macro "owes_tac" hs:ident pc:ident ev:ident : tactic => `(tactic| (
+  rcases $pc:ident with _|_|_|_|_|_|_|_|_|_|_|_|_|_|_|_|_|_|_|_|_|⟨tgt,st⟩|⟨tgt⟩|⟨tgt⟩|⟨tgt⟩|⟨tgt⟩|⟨tgt⟩|⟨tgt⟩|⟨tgt⟩|_|_|_
+  all_goals (try cases tgt)
+  all_goals (try cases st)
+  all_goals (simp [step, afterTrans] at $hs:ident)
+  all_goals (try (repeat' split at $hs:ident))
+  all_goals (try (obtain ⟨_, $hs:ident⟩ := $hs:ident))
+  all_goals (try subst $hs:ident)
+  all_goals (try (simp_all [inv, owesCheck, checkingReportPending]; done))
+  all_goals (try (cases $ev:ident <;> simp_all [inv, owesCheck, checkingReportPending]; done))))
+
+theorem owes_provideDeploy (s s' : St) (hi : inv s = true) (ho : owesCheck s = true)
+    (hs : step s (.provideDeploy) = some s') : (Act.provideDeploy = Act.deliver ∧ checkingReportPending s = true) ∨ owesCheck s' = true := by
+  rcases s with ⟨pc, state, stage, dA, eA, rA, dO, eO, eV, rO, early, ctx, rep, compl⟩
+  owes_tac hs pc early
+
+theorem owes_provideEnabling (s s' : St) (b : Bool) (hi : inv s = true) (ho : owesCheck s = true)
+    (hs : step s (.provideEnabling b) = some s') : (Act.provideEnabling b = Act.deliver ∧ checkingReportPending s = true) ∨ owesCheck s' = true := by
+  rcases s with ⟨pc, state, stage, dA, eA, rA, dO, eO, eV, rO, early, ctx, rep, compl⟩
+  owes_tac hs pc early
+
+theorem owes_provideStarting (s s' : St) (hi : inv s = true) (ho : owesCheck s = true)
+    (hs : step s (.provideStarting) = some s') : (Act.provideStarting = Act.deliver ∧ checkingReportPending s = true) ∨ owesCheck s' = true := by
+  rcases s with ⟨pc, state, stage, dA, eA, rA, dO, eO, eV, rO, early, ctx, rep, compl⟩
+  owes_tac hs pc early
+
+theorem owes_cancel (s s' : St) (hi : inv s = true) (ho : owesCheck s = true)
+    (hs : step s (.cancel) = some s') : (Act.cancel = Act.deliver ∧ checkingReportPending s = true) ∨ owesCheck s' = true := by
+  rcases s with ⟨pc, state, stage, dA, eA, rA, dO, eO, eV, rO, early, ctx, rep, compl⟩
+  owes_tac hs pc early
+
+theorem owes_internal (s s' : St) (hi : inv s = true) (ho : owesCheck s = true)
+    (hs : step s (.internal) = some s') : (Act.internal = Act.deliver ∧ checkingReportPending s = true) ∨ owesCheck s' = true := by
+  rcases s with ⟨pc, state, stage, dA, eA, rA, dO, eO, eV, rO, early, ctx, rep, compl⟩
+  owes_tac hs pc early
+
+theorem owes_deliver (s s' : St) (hi : inv s = true) (ho : owesCheck s = true)
+    (hs : step s (.deliver) = some s') : (Act.deliver = Act.deliver ∧ checkingReportPending s = true) ∨ owesCheck s' = true := by
+  rcases s with ⟨pc, state, stage, dA, eA, rA, dO, eO, eV, rO, early, ctx, rep, compl⟩
+  owes_tac hs pc early
+
+theorem owes_deliverFailure (s s' : St) (hi : inv s = true) (ho : owesCheck s = true)
+    (hs : step s (.deliverFailure) = some s') : (Act.deliverFailure = Act.deliver ∧ checkingReportPending s = true) ∨ owesCheck s' = true := by
+  rcases s with ⟨pc, state, stage, dA, eA, rA, dO, eO, eV, rO, early, ctx, rep, compl⟩
+  owes_tac hs pc early
+
+theorem owes_recv (s s' : St) (hi : inv s = true) (ho : owesCheck s = true)
+    (hs : step s (.recv) = some s') : (Act.recv = Act.deliver ∧ checkingReportPending s = true) ∨ owesCheck s' = true := by
+  rcases s with ⟨pc, state, stage, dA, eA, rA, dO, eO, eV, rO, early, ctx, rep, compl⟩
+  owes_tac hs pc early
+
+theorem owes_ctx (s s' : St) (hi : inv s = true) (ho : owesCheck s = true)
+    (hs : step s (.ctx) = some s') : (Act.ctx = Act.deliver ∧ checkingReportPending s = true) ∨ owesCheck s' = true := by
+  rcases s with ⟨pc, state, stage, dA, eA, rA, dO, eO, eV, rO, early, ctx, rep, compl⟩
+  owes_tac hs pc early
+
+theorem owes_deployOk (s s' : St) (hi : inv s = true) (ho : owesCheck s = true)
+    (hs : step s (.deployOk) = some s') : (Act.deployOk = Act.deliver ∧ checkingReportPending s = true) ∨ owesCheck s' = true := by
+  rcases s with ⟨pc, state, stage, dA, eA, rA, dO, eO, eV, rO, early, ctx, rep, compl⟩
+  owes_tac hs pc early
+
+theorem owes_deployFail (s s' : St) (hi : inv s = true) (ho : owesCheck s = true)
+    (hs : step s (.deployFail) = some s') : (Act.deployFail = Act.deliver ∧ checkingReportPending s = true) ∨ owesCheck s' = true := by
+  rcases s with ⟨pc, state, stage, dA, eA, rA, dO, eO, eV, rO, early, ctx, rep, compl⟩
+  owes_tac hs pc early
+
+theorem owes_startOk (s s' : St) (hi : inv s = true) (ho : owesCheck s = true)
+    (hs : step s (.startOk) = some s') : (Act.startOk = Act.deliver ∧ checkingReportPending s = true) ∨ owesCheck s' = true := by
+  rcases s with ⟨pc, state, stage, dA, eA, rA, dO, eO, eV, rO, early, ctx, rep, compl⟩
+  owes_tac hs pc early
+
+theorem owes_startFail (s s' : St) (hi : inv s = true) (ho : owesCheck s = true)
+    (hs : step s (.startFail) = some s') : (Act.startFail = Act.deliver ∧ checkingReportPending s = true) ∨ owesCheck s' = true := by
+  rcases s with ⟨pc, state, stage, dA, eA, rA, dO, eO, eV, rO, early, ctx, rep, compl⟩
+  owes_tac hs pc early
+
+theorem owes_resultOk (s s' : St) (hi : inv s = true) (ho : owesCheck s = true)
+    (hs : step s (.resultOk) = some s') : (Act.resultOk = Act.deliver ∧ checkingReportPending s = true) ∨ owesCheck s' = true := by
+  rcases s with ⟨pc, state, stage, dA, eA, rA, dO, eO, eV, rO, early, ctx, rep, compl⟩
+  owes_tac hs pc early
+
+theorem owes_resultErr (s s' : St) (hi : inv s = true) (ho : owesCheck s = true)
+    (hs : step s (.resultErr) = some s') : (Act.resultErr = Act.deliver ∧ checkingReportPending s = true) ∨ owesCheck s' = true := by
+  rcases s with ⟨pc, state, stage, dA, eA, rA, dO, eO, eV, rO, early, ctx, rep, compl⟩
+  owes_tac hs pc early
+
+theorem owes_step (s s' : St) (a : Act) (hi : inv s = true) (ho : owesCheck s = true) (hs : step s a = some s') :
+    (a = Act.deliver ∧ checkingReportPending s = true) ∨ owesCheck s' = true := by
+  cases a with
+  | provideDeploy => exact owes_provideDeploy s s' hi ho hs
+  | provideEnabling b => exact owes_provideEnabling s s' b hi ho hs
+  | provideStarting => exact owes_provideStarting s s' hi ho hs
+  | cancel => exact owes_cancel s s' hi ho hs
+  | internal => exact owes_internal s s' hi ho hs
+  | deliver => exact owes_deliver s s' hi ho hs
+  | deliverFailure => exact owes_deliverFailure s s' hi ho hs
+  | recv => exact owes_recv s s' hi ho hs
+  | ctx => exact owes_ctx s s' hi ho hs
+  | deployOk => exact owes_deployOk s s' hi ho hs
+  | deployFail => exact owes_deployFail s s' hi ho hs
+  | startOk => exact owes_startOk s s' hi ho hs
+  | startFail => exact owes_startFail s s' hi ho hs
+  | resultOk => exact owes_resultOk s s' hi ho hs
+  | resultErr => exact owes_resultErr s s' hi ho hs
+
+/-- from a settled state the only moves left are silent local ones, and they lead to settled states -/
+theorem settled_step (s s' : St) (a : Act) (hs : Settled s = true) (ha : a ∈ progressActs) (hstep : step s a = some s') :
+    a = .internal ∧ Settled s' = true := by
+  rcases s with ⟨pc, state, stage, dA, eA, rA, dO, eO, eV, rO, early, ctx, rep, compl⟩
+  simp only [progressActs, List.mem_cons, List.mem_nil_iff, or_false] at ha
+  rcases pc with _|_|_|_|_|_|_|_|_|_|_|_|_|_|_|_|_|_|_|_|_|⟨tgt,st⟩|⟨tgt⟩|⟨tgt⟩|⟨tgt⟩|⟨tgt⟩|⟨tgt⟩|⟨tgt⟩|⟨tgt⟩|_|_|_
+  all_goals (try cases tgt)
+  all_goals (rcases ha with rfl | rfl | rfl | rfl | rfl | rfl | rfl | rfl | rfl | rfl | rfl)
+  all_goals (simp [step, afterTrans] at hstep)
+  all_goals (try (repeat' split at hstep))
+  all_goals (try (obtain ⟨_, hstep⟩ := hstep))
+  all_goals (try subst hstep)
+  all_goals (try (simp_all [Settled, Quiescent, progressActs, step, afterTrans]; done))
+
+/-- counted as `waiting` in stage `deploy`, context not cancelled: parked on the empty channel, input not provided -/
+theorem deploy_counts_waiting (s : St) (hi : inv s = true) (hst : s.stage = .deploy) (hc : countsAs s = .waiting)
+    (hctx : s.ctxDone = false) : Quiescent s = true ∧ s.deployAvail = false := by
+  rcases s with ⟨pc, state, stage, dA, eA, rA, dO, eO, eV, rO, early, ctx, rep, compl⟩
+  rcases pc with _|_|_|_|_|_|_|_|_|_|_|_|_|_|_|_|_|_|_|_|_|⟨tgt,st⟩|⟨tgt⟩|⟨tgt⟩|⟨tgt⟩|⟨tgt⟩|⟨tgt⟩|⟨tgt⟩|⟨tgt⟩|_|_|_
+  all_goals (try cases tgt)
+  all_goals (try cases st)
+  all_goals (simp [inv] at hi)
+  all_goals (try (simp_all [Quiescent, Settled, progressActs, step, afterTrans, countsAs, reportedState, currentStageInputAvailable, inFailureTail, Refined, owesCheck, checkingReportPending]; done))
+  all_goals (try (cases dA <;> simp_all [Quiescent, Settled, progressActs, step, afterTrans, countsAs, reportedState, currentStageInputAvailable, inFailureTail, Refined, owesCheck, checkingReportPending]; done))
+  all_goals (try (cases eA <;> simp_all [Quiescent, Settled, progressActs, step, afterTrans, countsAs, reportedState, currentStageInputAvailable, inFailureTail, Refined, owesCheck, checkingReportPending]; done))
+  all_goals (try (cases rA <;> simp_all [Quiescent, Settled, progressActs, step, afterTrans, countsAs, reportedState, currentStageInputAvailable, inFailureTail, Refined, owesCheck, checkingReportPending]; done))
+  all_goals (try (cases early <;> cases rA <;> simp_all [Quiescent, Settled, progressActs, step, afterTrans, countsAs, reportedState, currentStageInputAvailable, inFailureTail, Refined, owesCheck, checkingReportPending]; done))
+  all_goals (try (cases state <;> cases dA <;> cases dO <;> cases ctx <;> simp_all [Quiescent, Settled, progressActs, step, afterTrans, countsAs, reportedState, currentStageInputAvailable, inFailureTail, Refined, owesCheck, checkingReportPending]; done))
+  all_goals (try (cases state <;> cases stage <;> cases dA <;> cases eA <;> cases rA <;> simp_all [Quiescent, Settled, progressActs, step, afterTrans, countsAs, reportedState, currentStageInputAvailable, inFailureTail, Refined, owesCheck, checkingReportPending]; done))
+
+/-- counted as `waiting` with the context cancelled: `run()` is on its way to report that it was closed -/
+theorem counts_waiting_ctx_owes (s : St) (hi : inv s = true) (hc : countsAs s = .waiting) (hctx : s.ctxDone = true) :
+    owesCheck s = true := by
+  rcases s with ⟨pc, state, stage, dA, eA, rA, dO, eO, eV, rO, early, ctx, rep, compl⟩
+  rcases pc with _|_|_|_|_|_|_|_|_|_|_|_|_|_|_|_|_|_|_|_|_|⟨tgt,st⟩|⟨tgt⟩|⟨tgt⟩|⟨tgt⟩|⟨tgt⟩|⟨tgt⟩|⟨tgt⟩|⟨tgt⟩|_|_|_
+  all_goals (try cases tgt)
+  all_goals (try cases st)
+  all_goals (simp [inv] at hi)
+  all_goals (try (simp_all [Quiescent, Settled, progressActs, step, afterTrans, countsAs, reportedState, currentStageInputAvailable, inFailureTail, Refined, owesCheck, checkingReportPending]; done))
+  all_goals (try (cases dA <;> simp_all [Quiescent, Settled, progressActs, step, afterTrans, countsAs, reportedState, currentStageInputAvailable, inFailureTail, Refined, owesCheck, checkingReportPending]; done))
+  all_goals (try (cases eA <;> simp_all [Quiescent, Settled, progressActs, step, afterTrans, countsAs, reportedState, currentStageInputAvailable, inFailureTail, Refined, owesCheck, checkingReportPending]; done))
+  all_goals (try (cases rA <;> simp_all [Quiescent, Settled, progressActs, step, afterTrans, countsAs, reportedState, currentStageInputAvailable, inFailureTail, Refined, owesCheck, checkingReportPending]; done))
+  all_goals (try (cases early <;> cases rA <;> simp_all [Quiescent, Settled, progressActs, step, afterTrans, countsAs, reportedState, currentStageInputAvailable, inFailureTail, Refined, owesCheck, checkingReportPending]; done))
+  all_goals (try (cases state <;> cases dA <;> cases dO <;> cases ctx <;> simp_all [Quiescent, Settled, progressActs, step, afterTrans, countsAs, reportedState, currentStageInputAvailable, inFailureTail, Refined, owesCheck, checkingReportPending]; done))
+  all_goals (try (cases state <;> cases stage <;> cases dA <;> cases eA <;> cases rA <;> simp_all [Quiescent, Settled, progressActs, step, afterTrans, countsAs, reportedState, currentStageInputAvailable, inFailureTail, Refined, owesCheck, checkingReportPending]; done))
 
 end Arca.Proofs.PluginState
